@@ -1,17 +1,19 @@
 """C06 - client connection reuse never mixes responses.
 
 World C: one real ClientSession against 1-3 scripted raw origins that may
-misbehave (surplus / unsolicited responses, truncation, close, reset, stall).
+misbehave (surplus / unsolicited responses and fragments, early responses to
+uploads, truncation, close, reset, stall).
 Every response carries a marker (origin, connection, the request id it answers
 or 'none', serial).  DESIGN.md section 9, C06.
 """
 from __future__ import annotations
 
 import asyncio
+import random
 import re
 
 from sim.net import SimResolver
-from sim.peers import RawServerConn, parse_simple_request
+from sim.peers import RawServerConn
 from sim.world import World
 
 PROP = "C06"
@@ -26,7 +28,10 @@ LEVEL_TEXT = (
     "Seeded exploration of request histories on one session x peer misbehaviour x timing: every response a caller gets "
     "must carry the marker of its own request and origin, must consist of bytes that reached the client after the request "
     "was handed to that connection, no marker is delivered twice, and a connection on which something abnormal happened "
-    "carries no later exchange (judged at the raw server). Sampling, not proof."
+    "carries no later exchange (judged at the raw server); a response with the caller's own marker says exactly what the "
+    "peer's message says unless bytes that arrived after the hand-over precede it; the bytes the client writes to one "
+    "connection are a sequence of complete requests (no request inside a body that was announced and not sent). "
+    "Sampling, not proof."
 )
 LEVEL_NOTE = (
     "Trusted: the scripted origins' bookkeeping (what they sent, at which stream offset), SimNet delivery log (arrival "
@@ -39,6 +44,10 @@ RULE = (
     "peer behaviour (ok, chunked, surplus response in same write / later / partial, unsolicited while idle, truncated "
     "body, close without header, Connection: close, reset mid-body, stall, slow body) x caller behaviour (read, release "
     "unread, close, leave context unread, per-request timeout, cancellation before step k) x segmentation/latency/ties. "
+    "In a sampled share of the runs: uploads (body of known / unknown (chunked) / zero length, with or without Expect: "
+    "100-continue) answered after the body (after '100 Continue') or early - a final response at the head instead of or "
+    "right after the 100, the connection kept; and stray fragments that stop short of a complete message (five cut points) "
+    "after an answer, in the same write or 1-30 ms later. "
     "Non-trivial: a connection was reused at least once AND at least one misbehaviour or caller-side abnormal end fired."
 )
 COMPONENTS = {
@@ -62,6 +71,18 @@ BEHAVIOURS = ["ok", "ok", "ok", "chunked", "surplus_same", "surplus_later:1", "s
               "trunc", "close_after", "connclose", "reset_mid", "stall", "slowbody:6", "surplus_later:30", "ok"]
 AFTER = ["read", "read", "read", "release", "close", "leave"]
 _M = re.compile(rb"X-M: o(\d+)\.c(\d+)\.q(\w+)\.n(\d+)")
+# request line of every request this harness issues (bodies never contain it): used to find, in the raw byte stream a
+# connection carried, every request the client wrote to it - also one the origin's framing took for something else
+_REQLINE = re.compile(rb"(GET|POST|HEAD) /r/(\d+)/[^ \r\n]* HTTP/1\.1\r\n")
+_CHUNKSIZE = re.compile(rb"[0-9a-fA-F]+(;[^\r\n]*)?")
+# stray bytes that stop short of a complete message (sent after a complete answer): index = behaviour argument
+FRAGMENTS = [
+    b"HTTP/1.1 2",                                   # (0) the original surplus_partial: cut inside the status line
+    b"HTTP/1.1 500 Stale\r\nX-Stale: ",              # (1) cut inside a header value
+    b"HTTP/1.1 500 Stale\r\n",                       # (2) cut after a complete line
+    b"HTTP/1.1 200 OK\r\nX-Stale: yes\r\nX-Pad: ",   # (3) same status as a real answer, extra headers
+    b"H",                                            # (4) a single byte
+]
 
 
 def gen(rng, tier, index):
@@ -81,9 +102,33 @@ def gen(rng, tier, index):
             rid += 1
         tasks.append(reqs)
     cancels = [[rng.randrange(ntasks), rng.randint(3, 150)] for _ in range(rng.choice([0, 0, 0, 1, 2]))]
-    return {"norigins": no, "tasks": tasks, "cancels": cancels, "lat": rng.choice([0, 1, 3]),
-            "pol": rng.choice(["whole", "whole", "small", "mixed", "byte"]), "limit": rng.choice([1, 2, 100]),
-            "keepalive": rng.choice([15.0, 15.0, 0.02])}
+    scn = {"norigins": no, "tasks": tasks, "cancels": cancels, "lat": rng.choice([0, 1, 3]),
+           "pol": rng.choice(["whole", "whole", "small", "mixed", "byte"]), "limit": rng.choice([1, 2, 100]),
+           "keepalive": rng.choice([15.0, 15.0, 0.02])}
+    # Later additions are drawn from a generator of their own (seeded by one last draw) and only in a sampled share of
+    # the scenarios, so that all other scenarios stay exactly what they were.
+    _gen_extras(scn, random.Random(rng.getrandbits(64)))
+    return scn
+
+
+def _gen_extras(scn, rng):
+    """(a) uploads: request bodies of known / unknown (chunked) / zero length, with or without Expect: 100-continue,
+    against a peer that answers when the request is complete (after '100 Continue' if asked) or *early* - a final
+    response at the head, instead of or right after the 100, optionally a few ms later - and keeps the connection;
+    (b) stray fragments: bytes after a complete answer that stop short of a complete message (different cut points),
+    in the same write or while the connection idles / after it was re-acquired."""
+    uploads = rng.random() < 0.15
+    fragments = rng.random() < 0.12
+    for reqs in scn["tasks"]:
+        for r in reqs:
+            if uploads and rng.random() < 0.45:
+                r["post"] = True
+                r["up"] = {"body": rng.choice(["stream", "stream", "bytes", "empty"]), "expect": rng.random() < 0.5,
+                           "early": rng.choice([None, None, "final", "final", "100_final"]),
+                           "edelay": rng.choice([0, 0, 1, 3]), "chunks": rng.randint(1, 3), "cgap": rng.choice([0, 0, 1, 5])}
+            if fragments and r["beh"] != "stall" and rng.random() < 0.4:
+                k = rng.randrange(len(FRAGMENTS))
+                r["beh"] = rng.choice([f"surplus_partial:{k}", f"surplus_partial:{k}", f"partial_later:{rng.choice([1, 8, 30])}:{k}"])
 
 
 def shrink(scn):
@@ -102,10 +147,19 @@ def shrink(scn):
     for ti, reqs in enumerate(ts):
         for i, r in enumerate(reqs):
             for k, v in (("gap", 0), ("post", False), ("total", None), ("after", "read")):
-                if r[k] != v and not (k == "total" and r["beh"] == "stall"):
+                if r[k] != v and not (k == "total" and r["beh"] == "stall") and not (k == "post" and r.get("up")):
                     yield dict(scn, tasks=ts[:ti] + [reqs[:i] + [dict(r, **{k: v})] + reqs[i + 1:]] + ts[ti + 1:])
             if r["beh"] not in ("ok",):
                 yield dict(scn, tasks=ts[:ti] + [reqs[:i] + [dict(r, beh="ok", total=None)] + reqs[i + 1:]] + ts[ti + 1:])
+            if r["beh"].startswith("partial_later:"):
+                yield dict(scn, tasks=ts[:ti] + [reqs[:i] + [dict(r, beh="surplus_partial:" + r["beh"].split(":")[2])] + reqs[i + 1:]] + ts[ti + 1:])
+            up = r.get("up")
+            if up:
+                plain = {k: v for k, v in r.items() if k != "up"}
+                yield dict(scn, tasks=ts[:ti] + [reqs[:i] + [plain] + reqs[i + 1:]] + ts[ti + 1:])
+                for k, v in (("early", None), ("expect", False), ("body", "bytes"), ("edelay", 0), ("chunks", 1), ("cgap", 0)):
+                    if up[k] != v:
+                        yield dict(scn, tasks=ts[:ti] + [reqs[:i] + [dict(r, up=dict(up, **{k: v}))] + reqs[i + 1:]] + ts[ti + 1:])
     if scn["lat"]:
         yield dict(scn, lat=0)
     if scn["pol"] != "whole":
@@ -128,6 +182,7 @@ def run(scn, ch, log=False):
         no = scn["norigins"]
         serial = [0]
         sent = {}  # serial -> dict(origin, conn, req, kind, off_a, off_b, conn_name)
+        msgs = {}  # serial -> what that message says: status, reason, headers, body
         conns = {}  # sim_conn id -> dict(origin, ssl, requests=[(reqid, step)], abnormal=[(kind, step)], out_len, ctr)
         probes = {"misbehaviour": 0, "reuse": 0, "abnormal_client": 0}
 
@@ -135,9 +190,21 @@ def run(scn, ch, log=False):
             cid = ctr.get_extra_info("sim_conn")
             ctr.recv_log = []
             conns[cid] = {"ctr": ctr, "str": str_, "ssl": ctr.get_extra_info("sslcontext") is not None, "requests": [],
-                          "abnormal": [], "out": 0, "origin": None, "closed_by_server_step": None}
+                          "abnormal": [], "out": 0, "origin": None, "closed_by_server_step": None, "framed": []}
 
         net.on_connect = on_connect
+
+        class OriginConn(RawServerConn):
+            """keeps everything the client wrote to the connection"""
+
+            def __init__(self, server):
+                super().__init__(server)
+                self.raw = bytearray()
+                self.scan = 0
+
+            def data_received(self, data):
+                self.raw += data
+                super().data_received(data)
 
         class Origin:
             def __init__(self, idx):
@@ -149,19 +216,29 @@ def run(scn, ch, log=False):
                 cid = c.transport.get_extra_info("sim_conn")
                 c.cid = cid
                 conns[cid]["origin"] = self.idx
+                c.off = 0        # stream offset (client -> origin) of c.buf[0]
+                c.mode = "head"  # what the origin's request framing expects next: "head" | "body" | "dead"
+                c.cur = None
 
-            def respond(self, c, req_tag, kind, body=b"", chunked=False, extra_hdr=b"", declared=None):
+            def respond(self, c, req_tag, kind, body=b"", chunked=False, extra_hdr=b"", declared=None, status=200,
+                        reason=b"OK"):
                 serial[0] += 1
                 n = serial[0]
                 marker = b"X-M: o%d.c%d.q%s.n%d" % (self.idx, c.cid, str(req_tag).encode(), n)
                 body = body or (b"body-" + marker[5:])
+                line = b"HTTP/1.1 %d %s\r\n" % (status, reason)
                 if chunked:
-                    head = b"HTTP/1.1 200 OK\r\n" + marker + b"\r\nTransfer-Encoding: chunked\r\n" + extra_hdr + b"\r\n"
+                    head = line + marker + b"\r\nTransfer-Encoding: chunked\r\n" + extra_hdr + b"\r\n"
                     payload = b"%x\r\n%s\r\n0\r\n\r\n" % (len(body), body)
+                    fr = (b"Transfer-Encoding", b"chunked")
                 else:
                     dl = len(body) if declared is None else declared
-                    head = b"HTTP/1.1 200 OK\r\n" + marker + b"\r\nContent-Length: %d\r\n" % dl + extra_hdr + b"\r\n"
+                    head = line + marker + b"\r\nContent-Length: %d\r\n" % dl + extra_hdr + b"\r\n"
                     payload = body
+                    fr = (b"Content-Length", b"%d" % dl)
+                # what exactly this message says, for the comparison with what the caller is given
+                msgs[n] = {"status": status, "reason": reason.decode(), "body": body, "size": len(head) + len(payload),
+                           "headers": [(b"X-M", marker[5:]), fr] + [tuple(h.split(b": ", 1)) for h in extra_hdr.split(b"\r\n") if h]}
                 return n, head, payload
 
             def send(self, c, n, data, req_tag, kind):
@@ -175,30 +252,128 @@ def run(scn, ch, log=False):
                 c.send(data)
 
             def on_data(self, c):
-                while True:
-                    r = parse_simple_request(c.buf)
-                    if r is None:
-                        return
-                    req, used = r
-                    del c.buf[:used]
-                    path = req["target"].decode("latin-1")
-                    parts = path.split("/")  # /r/<id>/<beh>[/<arg>]
-                    rid = int(parts[2])
-                    beh = parts[3]
-                    arg = int(parts[4]) if len(parts) > 4 else 0
-                    info = conns[c.cid]
-                    info["requests"].append((rid, loop.steps, req["method"], req["headers"]))
-                    if info["closed_by_server_step"] is not None:
-                        return
-                    self.behave(c, rid, beh, arg)
-
-            def behave(self, c, rid, beh, arg):
                 info = conns[c.cid]
+                # (1) every request line the client wrote to this connection, wherever it lies in the stream
+                for m in _REQLINE.finditer(c.raw, c.scan):
+                    info["requests"].append((int(m.group(2)), loop.steps, m.group(1), m.start()))
+                    c.scan = m.end()
+                # (2) the origin frames the stream as HTTP/1.1 says: head, then the body the head announced
+                while c.mode != "dead":
+                    if c.mode == "head":
+                        i = c.buf.find(b"\r\n\r\n")
+                        if i < 0:
+                            return
+                        head = bytes(c.buf[:i])
+                        del c.buf[:i + 4]
+                        start = c.off
+                        c.off += i + 4
+                        lines = head.split(b"\r\n")
+                        low = {}
+                        for ln in lines[1:]:
+                            k = ln.find(b":")
+                            low[ln[:k].lower()] = ln[k + 1:].strip(b" \t")
+                        if info["closed_by_server_step"] is not None or not _REQLINE.fullmatch(lines[0] + b"\r\n"):
+                            c.mode = "dead"
+                            return
+                        target = lines[0].split(b" ")[1].decode("latin-1")
+                        path, _, query = target.partition("?")
+                        opts = dict(kv.split("=", 1) for kv in query.split("&") if kv)
+                        parts = path.split("/")  # /r/<id>/<beh>[/<arg>[/<arg2>]]
+                        if b"chunked" in low.get(b"transfer-encoding", b"").lower():
+                            framing = "chunked"
+                        elif int(low.get(b"content-length", b"0")) > 0:
+                            framing = "length"
+                        else:
+                            framing = "none"
+                        cur = c.cur = {"rid": int(parts[2]), "beh": parts[3], "args": [int(x) for x in parts[4:]],
+                                       "start": start, "end": None, "framing": framing, "answered": False,
+                                       "left": int(low.get(b"content-length", b"0")), "cstate": "size",
+                                       "expect": low.get(b"expect", b"").lower() == b"100-continue",
+                                       "early": opts.get("e"), "edelay": int(opts.get("d", "0"))}
+                        info["framed"].append(cur)
+                        c.mode = "body"
+                        if framing != "none":
+                            if cur["expect"] and cur["early"] != "final":
+                                serial[0] += 1
+                                self.send(c, serial[0], b"HTTP/1.1 100 Continue\r\n\r\n", cur["rid"], "interim")
+                            if cur["early"]:
+                                probes["early_response"] = probes.get("early_response", 0) + 1
+                                probes["misbehaviour"] += 1
+                                if cur["edelay"]:
+                                    loop.sim_call_later(cur["edelay"] * 0.001, self.answer, c, cur)
+                                else:
+                                    self.answer(c, cur)
+                    done = self.consume_body(c, c.cur)
+                    if done is None:
+                        # what follows the head is not the body it announced: a server can only give up
+                        c.mode = "dead"
+                        probes["request_framing_error"] = probes.get("request_framing_error", 0) + 1
+                        n, h, p = self.respond(c, "none", "framing_error", extra_hdr=b"Connection: close\r\n", status=400,
+                                               reason=b"Bad Request")
+                        self.send(c, n, h + p, "none", "framing_error")
+                        info["closed_by_server_step"] = loop.steps
+                        c.transport.close()
+                        return
+                    if not done:
+                        return
+                    c.cur["end"] = c.off
+                    c.mode = "head"
+                    self.answer(c, c.cur)
+
+            def consume_body(self, c, cur):
+                """True: the body is complete; False: more bytes needed; None: the bytes are not a body of this framing"""
+                if cur["framing"] == "none":
+                    return True
+                if cur["framing"] == "length":
+                    take = min(len(c.buf), cur["left"])
+                    del c.buf[:take]
+                    c.off += take
+                    cur["left"] -= take
+                    return cur["left"] == 0
+                while True:
+                    if cur["cstate"] == "data":
+                        if len(c.buf) < cur["left"]:
+                            return False
+                        if bytes(c.buf[cur["left"] - 2:cur["left"]]) != b"\r\n":
+                            return None
+                        del c.buf[:cur["left"]]
+                        c.off += cur["left"]
+                        cur["cstate"] = "size"
+                        continue
+                    j = c.buf.find(b"\r\n")
+                    if j < 0:
+                        return False
+                    line = bytes(c.buf[:j])
+                    if cur["cstate"] == "size":
+                        if not _CHUNKSIZE.fullmatch(line):
+                            return None
+                        size = int(line.split(b";")[0], 16)
+                        cur["cstate"], cur["left"] = ("data", size + 2) if size else ("trailer", 0)
+                    elif not line:  # end of the trailer section
+                        del c.buf[:j + 2]
+                        c.off += j + 2
+                        return True
+                    del c.buf[:j + 2]
+                    c.off += j + 2
+
+            def answer(self, c, cur):
+                if cur["answered"] or conns[c.cid]["closed_by_server_step"] is not None:
+                    return
+                if c.transport is None or c.transport.is_closing():
+                    return
+                cur["answered"] = True
+                self.behave(c, cur["rid"], cur["beh"], cur["args"][0] if cur["args"] else 0, cur)
+
+            def behave(self, c, rid, beh, arg, cur=None):
+                info = conns[c.cid]
+                early = cur is not None and cur["end"] is None
                 if beh in ("ok", "chunked", "slowbody", "close_after", "connclose", "surplus_same", "surplus_later",
-                           "surplus_partial"):
+                           "surplus_partial", "partial_later"):
                     chunked = beh == "chunked"
                     extra = b"Connection: close\r\n" if beh == "connclose" else b""
-                    n, head, payload = self.respond(c, rid, "answer", chunked=chunked, extra_hdr=extra)
+                    # a final answer given instead of the '100 Continue' that was asked for is a refusal
+                    st = (417, b"Expectation Failed") if early and cur["expect"] and cur["early"] == "final" else (200, b"OK")
+                    n, head, payload = self.respond(c, rid, "answer", chunked=chunked, extra_hdr=extra, status=st[0], reason=st[1])
                     if beh == "slowbody":
                         self.send(c, n, head, rid, "answer")
                         loop.sim_call_later(arg * 0.001, self.send, c, n, payload, rid, "answer")
@@ -226,8 +401,19 @@ def run(scn, ch, log=False):
                         probes["misbehaviour"] += 1
                         serial[0] += 1
                         n2 = serial[0]
-                        self.send(c, n2, b"HTTP/1.1 2", "none", "surplus")
+                        self.send(c, n2, FRAGMENTS[arg], "none", "surplus")
                         info["abnormal"].append(("partial", n2))
+                    elif beh == "partial_later":
+                        probes["misbehaviour"] += 1
+
+                        def later_fragment():
+                            if c.transport is None or c.transport.is_closing():
+                                return
+                            serial[0] += 1
+                            n2 = serial[0]
+                            self.send(c, n2, FRAGMENTS[cur["args"][1]], "none", "unsolicited")
+                            info["abnormal"].append(("partial", n2))
+                        loop.sim_call_later(arg * 0.001, later_fragment)
                     elif beh in ("close_after", "connclose"):
                         probes["misbehaviour"] += int(beh == "close_after")
                         info["closed_by_server_step"] = loop.steps
@@ -264,13 +450,13 @@ def run(scn, ch, log=False):
             listener_of[(ip, port)] = i
             o = Origin(i)
             origins.append(o)
-            net.listen((lambda o=o: RawServerConn(o)), ip, port)
+            net.listen((lambda o=o: OriginConn(o)), ip, port)
 
         def same_endpoint(a, b):
             return ORIGINS[a][1:3] == ORIGINS[b][1:3]
         handover = {}  # reqid -> (step, "new"|"reuse")
         delivered = {}  # reqid -> parsed marker tuple
-        client_abnormal = []  # (conn id, kind, step)
+        client_abnormal = []  # (conn id, kind, step, request id)
         req_conn = {}
 
         async def on_create_end(session, ctx, params):
@@ -296,6 +482,7 @@ def run(scn, ch, log=False):
         loop.run_sim(setup(), vt_cap=1)
         session = state["session"]
         outcomes = {}
+        got = {}  # reqid -> status, reason, raw headers of the response the caller was given
 
         async def one(r):
             name, ip, port, scheme = ORIGINS[r["origin"]]
@@ -304,8 +491,24 @@ def run(scn, ch, log=False):
             kw = {"trace_request_ctx": r["id"], "timeout": aiohttp.ClientTimeout(total=r["total"])}
             if scheme == "https":
                 kw["ssl"] = state["sslctx"]
-            meth = session.post if r["post"] else session.get
-            if r["post"]:
+            up = r.get("up")
+            meth = session.post if r["post"] or up else session.get
+            if up:
+                probes["uploads"] = probes.get("uploads", 0) + 1
+                if up["body"] == "stream":
+                    async def chunks():  # a body of unknown length: sent chunked
+                        for i in range(up["chunks"]):
+                            if up["cgap"]:
+                                await asyncio.sleep(up["cgap"] * 0.001)
+                            yield b"u%d-" % i + b"d" * 20
+                    kw["data"] = chunks()
+                else:
+                    kw["data"] = b"p" * 30 if up["body"] == "bytes" else b""
+                if up["expect"]:
+                    kw["expect100"] = True
+                if up["early"]:
+                    url += f"?e={up['early']}&d={up['edelay']}"
+            elif r["post"]:
                 kw["data"] = b"p" * 30
             try:
                 resp = await meth(url, **kw)
@@ -317,23 +520,29 @@ def run(scn, ch, log=False):
             m = _M.search(b"X-M: " + resp.headers.get("X-M", "").encode("latin-1"))
             delivered[r["id"]] = tuple(m.groups()) if m else None
             outcomes[r["id"]] = ("resp", resp.status)
+            got[r["id"]] = {"status": resp.status, "reason": resp.reason, "headers": list(resp.raw_headers)}
             c = resp.connection
             cid = c.transport.get_extra_info("sim_conn") if (c is not None and c.transport is not None) else None
+            # "not fully read": for an upload the caller can be given a complete response whose connection is still attached
+            # (the request's writer is pending); there it means that the end of the body has not been received from the
+            # connection (is_eof(): bytes waiting in the response's own buffer are off the connection).  Other requests
+            # are judged as before.
+            unread = (lambda: not resp.content.is_eof()) if up else (lambda: not resp.content.at_eof())
             try:
                 if r["after"] == "read":
                     body = await resp.read()
                     outcomes[r["id"]] = ("resp_read", resp.status, body)
                 elif r["after"] == "release":
-                    if cid is not None and not resp.content.at_eof():
-                        client_abnormal.append((cid, "released_unread", loop.steps))
+                    if cid is not None and unread():
+                        client_abnormal.append((cid, "released_unread", loop.steps, r["id"]))
                     resp.release()
                 elif r["after"] == "close":
                     if cid is not None:
-                        client_abnormal.append((cid, "closed_by_caller", loop.steps))
+                        client_abnormal.append((cid, "closed_by_caller", loop.steps, r["id"]))
                     resp.close()
                 else:
-                    if cid is not None and not resp.content.at_eof():
-                        client_abnormal.append((cid, "left_unread", loop.steps))
+                    if cid is not None and unread():
+                        client_abnormal.append((cid, "left_unread", loop.steps, r["id"]))
                     async with resp:
                         pass
             except asyncio.CancelledError:
@@ -392,6 +601,15 @@ def run(scn, ch, log=False):
             b_end = delivery_index(cid, sent[n2]["b"] - 1)
             return "one_delivery" if a is not None and a == b == b_end else "later"
 
+        def answer_complete_before(cid, arid, step):
+            """the peer's complete answer to request arid had reached the client on connection cid before loop step `step`"""
+            for n in sorted(sent):
+                e = sent[n]
+                if e["conn"] == cid and e["req"] == arid and e["kind"] == "answer" and n in msgs:
+                    last = arrival_step(cid, e["b"] - 1)
+                    return e["b"] - e["a"] == msgs[n]["size"] and last is not None and last < step
+            return False
+
         all_reqs = {r["id"]: r for reqs in scn["tasks"] for r in reqs}
         seen_serials = {}
         for rid, mk in sorted(delivered.items()):
@@ -429,6 +647,28 @@ def run(scn, ch, log=False):
             elif early:
                 violate("own_response", "answer_arrived_before_handover",
                         f"harness inconsistency? request {rid}'s own answer arrived at step {arr} before hand-over {ho[0]}")
+            # The caller's response must say what the peer's message says.  Judged for a response that carries the
+            # caller's own marker (one that does not is judged above).  Bytes that arrived after the hand-over and
+            # before the answer are part of the answer for any client; so a difference is a violation when there are
+            # no such bytes: then it can only be made of bytes that were there before the request was handed over.
+            msg, g = msgs.get(n), got.get(rid)
+            if q == str(rid) and msg is not None and g is not None and ent is not None and ho is not None and cid in conns:
+                diff = [k for k in ("status", "reason", "headers") if g[k] != msg[k]]
+                oc = outcomes.get(rid)
+                if oc is not None and oc[0] == "resp_read" and r["beh"] not in ("trunc", "reset_mid") and oc[2] != msg["body"]:
+                    diff.append("body")
+                if diff:
+                    before = sum(len(chunk) for step, chunk in conns[cid]["ctr"].recv_log if step < ho[0])
+                    stale = [n2 for k2, n2 in conns[cid]["abnormal"] if k2 == "partial" and n2 in sent and sent[n2]["a"] < before]
+                    if before < ent["a"] or ent["b"] - ent["a"] != msg["size"]:  # (or the peer put other bytes in the middle of its answer)
+                        probes["junk_after_handover_in_response"] = probes.get("junk_after_handover_in_response", 0) + 1
+                    else:
+                        violate("own_response", "response_not_what_peer_sent:" + ("stale_fragment_before_handover" if stale else "unexplained"),
+                                f"request {rid} on c{cid}: the peer's answer n{n} says {msg['status']} {msg['reason']} {msg['headers']} "
+                                f"body {msg['body'][:40]!r}, the caller got {g['status']} {g['reason']} {g['headers']}"
+                                + (f" body {oc[2][:40]!r}" if "body" in diff else "") + f" (differs in {','.join(diff)}); all {before} bytes "
+                                f"that preceded the answer on this connection had arrived before the hand-over at step {ho[0]}"
+                                + (f", among them the stray fragment(s) n{stale}" if stale else ""))
         # connection-level: a connection with an abnormal event carries no later exchange
         for cid in sorted(conns):
             info = conns[cid]
@@ -441,6 +681,18 @@ def run(scn, ch, log=False):
                 if r is not None and info["origin"] is not None and not same_endpoint(r["origin"], info["origin"]):
                     violate("origin_isolation", "request_on_other_origins_connection",
                             f"request {rid} for origin {r['origin']} was written to a connection of origin {info['origin']}")
+            # the client's side of the stream is a sequence of complete requests: no request is written where the
+            # body an earlier head announced has not been sent (or was cut short)
+            for (rid, step, method, off) in reqs:
+                for fr in info["framed"]:
+                    if fr["start"] < off and (fr["end"] is None or off < fr["end"]):
+                        violate("no_reuse_after_abnormal",
+                                f"reused_with_request_body_unsent:{fr['framing']}:{'expect100' if fr['expect'] else 'no_expect'}",
+                                f"connection c{cid}: request {rid} was written at stream offset {off}, inside the {fr['framing']} body "
+                                f"announced by request {fr['rid']} (head at {fr['start']}, "
+                                f"{'Expect: 100-continue, ' if fr['expect'] else ''}peer's answer: {fr['early'] or 'after the body'}) "
+                                "which the client never completed")
+                        break
             for idx in range(1, len(reqs)):
                 rid, step = reqs[idx][0], reqs[idx][1]
                 ho = handover.get(rid)
@@ -458,8 +710,15 @@ def run(scn, ch, log=False):
                         violate("no_reuse_after_abnormal", "reused_with_stray_bytes_pending:" + ("partial_message_in_parser_tail" if kind == "partial" else stray_timing(cid, n2)),
                                 f"connection c{cid} was handed to request {rid} at step {ho[0]} although stray bytes (n{n2}) "
                                 f"had reached it at step {arr}")
-                for (acid, kind, astep) in client_abnormal:
+                for (acid, kind, astep, arid) in client_abnormal:
                     if acid == cid and astep < ho[0] and any(q[0] == rid for q in reqs[idx:]):
+                        if kind != "closed_by_caller" and all_reqs[arid].get("up") and answer_complete_before(cid, arid, ho[0]):
+                            # While the request's writer is pending (an upload waiting for '100 Continue' or still
+                            # sending) the connection goes back only when the writer has ended, and whether it may be
+                            # reused is decided then: if by the next hand-over the whole answer had been received, nothing
+                            # of it was left unread on the connection.  Requests without such an upload are judged as before.
+                            probes["unread_but_received_at_deferred_release"] = probes.get("unread_but_received_at_deferred_release", 0) + 1
+                            continue
                         pr = all_reqs.get(prev)
                         violate("no_reuse_after_abnormal", f"reused_after_{kind}",
                                 f"connection c{cid}: {kind} at step {astep}, yet request {rid} was handed to it at step {ho[0]}")
